@@ -704,7 +704,8 @@ def phase_e2e(res, tier, seed, name="e2e"):
 
 # ---------------------------------------------------------------- default mode with CAS upload: per-session faults
 
-CAS_WRITERS = {"commit": "post_commit", "amend": "rewrite_authorship_after_commit_amend"}   # scenario path -> writer it reaches
+CAS_WRITERS = {"commit": "post_commit", "amend": "rewrite_authorship_after_commit_amend",
+               "rebase-stop": "credit_lines_recorded_while_stopped"}   # scenario path -> writer it reaches
 CAS_API = "http://127.0.0.1:9"     # nothing listens; the upload itself is asynchronous and never reached
 
 
@@ -728,6 +729,10 @@ def cas_plan(tier, seed):
     plan.append(("amend", 2, None, ("trigger", [1])))      # session 0 already in the note (url, no messages)
     plan.append(("amend", 3, None, ("trigger", [rng.choice([1, 2])])))
     plan.append(("amend", 2, None, ("nodb",)))
+    # agents report edits while a rebase is stopped on a conflict; `rebase --continue` writes the note
+    plan.append(("rebase-stop", 2, None, ("trigger", [0])))
+    plan.append(("rebase-stop", 2, None, ("trigger", [1])))
+    plan.append(("rebase-stop", 3, None, ("none",)))
     if tier == "thorough":
         plan.append(("amend", 2, None, ("lock",)))
         for _ in range(6):
@@ -765,6 +770,17 @@ def run_cas_scenario(spec, seed, binary=None):
             assert r.commit("base"), "base commit"
             first = sess[:1] if path == "amend" else []
             rest = sess[1:] if path == "amend" else sess
+            if path == "rebase-stop":
+                # feature and main both rewrite base.txt: `git rebase main` stops on the conflict
+                r.git("checkout", "-q", "-b", "feature")
+                r.write("base.txt", "feature\n"); r.git("add", "-A"); assert r.commit("feature change"), "feature commit"
+                r.git("checkout", "-q", "main")
+                r.write("base.txt", "main\n"); r.git("add", "-A"); assert r.commit("main change"), "main commit"
+                r.git("checkout", "-q", "feature")
+                rc, _, err = r.git("rebase", "main")
+                assert rc != 0, "the rebase was expected to stop on a conflict"
+                r.write("base.txt", "resolved\n")
+                r.git("add", "base.txt")
 
             def edit(x, k):
                 r.write(x["file"], f"l1\nAI-{x['i']}-{k}\nl2\n")
@@ -794,6 +810,8 @@ def run_cas_scenario(spec, seed, binary=None):
             try:
                 if path == "amend":
                     rc, _, err = r.git("commit", "--amend", "-q", "--no-edit")
+                elif path == "rebase-stop":
+                    rc, _, err = r.git("rebase", "--continue")
                 else:
                     rc, _, err = r.git("commit", "-q", "-m", "c-cas")
             finally:
